@@ -14,7 +14,7 @@
    time.time), so every theorem holds for every clock behaviour.
 
    Times are integers (ticks).  Faithful for nbytes >= 0 and timeout None or >= 0. *)
-From PV Require Import Bytes Sched.
+From PV Require Import Bytes Sched C26_gen.
 Open Scope Z_scope.
 
 Record waiter := mkW { w_n : Z; w_t : option Z; w_notified : bool }.
@@ -108,7 +108,12 @@ Definition step_core (retest : bool) (s : state) (a : action) : option (state * 
       match x with
       | AWake _ => None
       | AFeed d =>
-          Some (mkS (buf s ++ d) (closed s) (has_ev s) (has_ev s || ev s)
+          (* event.set() if an event is installed; [feed_sets_event_always] (generated
+             from the source of feed()) says whether that is unconditional or only when
+             the buffer is non-empty after the append *)
+          Some (mkS (buf s ++ d) (closed s) (has_ev s)
+                    (if has_ev s && (feed_sets_event_always || negb (is_nil (buf s ++ d)))
+                     then true else ev s)
                     (notify_all (waiters s)) (hist s), ODone)
       | ARead n t =>
           if is_nil (buf s) then
@@ -183,16 +188,80 @@ Definition wstat (s : state) (i : Z) : Z :=
   | Some w => if w_notified w then 2 else 1
   end.
 
-Definition enc_waiters (s : state) : list Z := [wstat s 0; wstat s 1; wstat s 2; wstat s 3].
+(* all four thread slots in one number (base 3) *)
+Definition wcode (s : state) : Z := wstat s 0 + 3 * wstat s 1 + 9 * wstat s 2 + 27 * wstat s 3.
+
+Definition enc_final (s : state) : list Z :=
+  (-1) :: buf s ++ [(-2); b2z (closed s); b2z (has_ev s); b2z (has_ev s && ev s)].
 
 Fixpoint trace_from (s : state) (l : list action) : list Z :=
   match l with
-  | [] => (-1) :: buf s ++ [(-2); b2z (closed s); b2z (has_ev s); b2z (has_ev s && ev s)]
+  | [] => enc_final s
   | a :: r =>
       match step s a with
-      | Some (s', o) => enc_outcome o ++ enc_waiters s' ++ trace_from s' r
+      | Some (s', o) => enc_outcome o ++ [wcode s'] ++ trace_from s' r
       | None => [-9]                     (* action not enabled in the model *)
       end
   end.
 
 Definition run_trace (l : list action) : list Z := trace_from init l.
+
+(* ---- the model enumerates all interleavings itself ---------------------------------
+   Given op-level programs (lists of AFeed / ARead / AEmpty / AClose / ASetEvent, thread id =
+   position) [explore] walks every maximal schedule under the harness's choice policy: an
+   idle thread may start its next operation; a blocked reader may wake up when notified
+   (clock reading 0, or exactly its remaining timeout) or when its wait times out (reading =
+   remaining timeout).  It returns the number of maximal schedules and the sum of a rolling
+   hash of their traces, which the harness compares with the same figures computed from the
+   executions of the real class. *)
+Definition hash_mask : Z := 281474976710655.         (* 2^48 - 1; masking is cheap under vm_compute *)
+Definition mix (h v : Z) : Z := Z.land (h * 1000003 + v + 1000) hash_mask.
+Definition mix_list (h : Z) (l : list Z) : Z := fold_left mix l h.
+
+Fixpoint choices_from (i : Z) (ps : list (list act)) (s : state) : list action :=
+  match ps with
+  | [] => []
+  | p :: r =>
+      (match waiters s i with
+       | Some w =>
+           match w_t w with
+           | None => if w_notified w then [(i, AWake 0)] else []
+           | Some rem =>
+               if w_notified w
+               then (if rem =? 0 then [(i, AWake 0)] else [(i, AWake 0); (i, AWake rem)])
+               else [(i, AWake rem)]
+           end
+       | None => match p with [] => [] | x :: _ => [(i, x)] end
+       end) ++ choices_from (i + 1) r s
+  end.
+
+Fixpoint advance (ps : list (list act)) (i : Z) : list (list act) :=
+  match ps with
+  | [] => []
+  | p :: r => if i =? 0 then tl p :: r else p :: advance r (i - 1)
+  end.
+
+Definition is_wake (x : act) : bool := match x with AWake _ => true | _ => false end.
+
+Fixpoint explore (fuel : nat) (ps : list (list act)) (s : state) (h : Z) : Z * Z :=
+  match fuel with
+  | O => (-1000000, 0)                  (* out of fuel: poisons the count *)
+  | S f =>
+      match choices_from 0 ps s with
+      | [] => (1, mix_list h (enc_final s))
+      | ch =>
+          fold_left
+            (fun acc c =>
+               match step s c with
+               | Some (s', o) =>
+                   let ps' := if is_wake (snd c) then ps else advance ps (fst c) in
+                   let r := explore f ps' s' (mix_list h (enc_outcome o ++ [wcode s'])) in
+                   (fst acc + fst r, Z.land (snd acc + snd r) hash_mask)
+               | None => (fst acc - 1000000, snd acc)   (* a chosen step must be enabled *)
+               end)
+            ch (0, 0)
+      end
+  end.
+
+Definition run_explore (ps : list (list act)) : list Z :=
+  let '(c, h) := explore 400 ps init 0 in [c; h].
